@@ -31,7 +31,7 @@
    WHAT THE MODEL CANNOT EXHIBIT: preemption inside one message handler (actors are sequential),
    memory-model effects, real timers.  State that is NOT actor-owned must be modelled as its own
    "actor" at the granularity at which it really is atomic (e.g. one file-system syscall). *)
-From Coq Require Import List Arith.
+From Coq Require Import List Arith PArith.
 Import ListNotations.
 
 Section Sched.
@@ -148,6 +148,31 @@ Section Sched.
 
   Definition run_polls (is_sync : M -> bool) (fuel : nat) (c : config) (sched : list nat) : config :=
     fold_left (poll is_sync fuel) sched c.
+
+  (* the same macro step with a binary bound (at most [p] calls): its evaluation costs what the
+     poll actually does, not the size of the bound -- this is the one the checks evaluate.
+     The boolean says the poll is over (asynchronous call made, or task finished). *)
+  Definition poll1 (is_sync : M -> bool) (c : config) (t : nat) : config * bool :=
+    match nth_error (tasks c) t with
+    | Some (Call m _) => (sstep c t, negb (is_sync m))
+    | _ => (c, true)
+    end.
+
+  Fixpoint poll_p (is_sync : M -> bool) (p : positive) (c : config) (t : nat) : config * bool :=
+    match p with
+    | xH => poll1 is_sync c t
+    | xO p' =>
+        let r := poll_p is_sync p' c t in
+        if snd r then r else poll_p is_sync p' (fst r) t
+    | xI p' =>
+        let r := poll1 is_sync c t in
+        if snd r then r else
+        let r' := poll_p is_sync p' (fst r) t in
+        if snd r' then r' else poll_p is_sync p' (fst r') t
+    end.
+
+  Definition run_polls_p (is_sync : M -> bool) (p : positive) (c : config) (sched : list nat) : config :=
+    fold_left (fun c t => fst (poll_p is_sync p c t)) sched c.
 End Sched.
 
 Arguments prog : clear implicits.
